@@ -222,7 +222,7 @@ def run(db, chk) -> None:
         if H.name_id(arg) == pn and pn in H.param_names(fac):
             return True
         if isinstance(arg, ast.Name):
-            for lp in [n for n in ast.walk(fac) if isinstance(n, ast.For) and H.name_id(n.target) == arg.id]:
+            for lp in [n for n in ast.walk(fac) if isinstance(n, (ast.For, ast.comprehension)) and H.name_id(n.target) == arg.id]:
                 if H.name_id(lp.iter) == pn + "s" and (pn + "s") in H.param_names(fac):
                     return True
         return False
